@@ -244,6 +244,7 @@ type Plan struct {
 	Readers   int      `json:"readers"`
 	WriterOps []string `json:"writer_ops"` // executed by writer 1 in order
 	ConnOps   []string `json:"conn_ops"`   // executed by writer 2 in order
+	Conn2Ops  []string `json:"conn2_ops"`  // executed by a third writer in order; they concern B2 only, which the generator keeps out of ConnOps (every connection has one writer, so its final state is defined)
 	Pre       []string `json:"pre"`        // connections registered before the readers start (so that drops hit routes in use)
 	Jitter    []int    `json:"jitter"`     // Gosched counts between writer ops
 	Requests  int      `json:"requests"`   // per reader
@@ -417,6 +418,11 @@ func CheckStress(p Plan) ([]evid.Violation, int) {
 			}
 		}
 	}
+	if len(p.Conn2Ops) > 0 {
+		writersLeft.Add(1)
+		wg.Add(1)
+		go writer(p.Conn2Ops, p.Jitter)
+	}
 	wg.Add(2)
 	go writer(p.WriterOps, p.Jitter)
 	go writer(p.ConnOps, p.Jitter)
@@ -439,7 +445,7 @@ func CheckStress(p Plan) ([]evid.Violation, int) {
 	for _, b := range p.Pre {
 		connected[b] = true
 	}
-	for _, op := range p.ConnOps {
+	for _, op := range append(append([]string{}, p.ConnOps...), p.Conn2Ops...) {
 		kind, b, _ := strings.Cut(op, ":")
 		connected[b] = kind == "conn"
 	}
@@ -455,7 +461,7 @@ func CheckStress(p Plan) ([]evid.Violation, int) {
 		path := "/fx/" + strings.ToLower(svc)
 		st := doProbe(mux, 0, path, "")
 		if owned && st != 200 || !owned && st == 200 {
-			report("after the plan: %s answers %d although the connection operations %v leave it served=%v (a completed registration or removal was lost)", path, st, p.ConnOps, owned)
+			report("after the plan: %s answers %d although the connection operations %v + %v (pre %v) leave it served=%v (a completed registration or removal was lost)", path, st, p.ConnOps, p.Conn2Ops, p.Pre, owned)
 		}
 	}
 	if st := doProbe(mux, 0, "/fx/svca", ""); st != 200 {
@@ -514,7 +520,11 @@ func TestPropStress(t *testing.T) {
 		}
 		m := rapid.IntRange(0, 6).Draw(t, "nconn")
 		for i := 0; i < m; i++ {
-			p.ConnOps = append(p.ConnOps, rapid.SampledFrom([]string{"conn:B1", "conn:B3", "drop:B1", "drop:B3", "conn:B2", "drop:B2"}).Draw(t, "cop"))
+			p.ConnOps = append(p.ConnOps, rapid.SampledFrom([]string{"conn:B1", "conn:B3", "drop:B1", "drop:B3"}).Draw(t, "cop"))
+		}
+		// B2 has a writer of its own: its registrations and removals overlap those of the other connections
+		for i, m2 := 0, rapid.IntRange(0, 3).Draw(t, "nconn2"); i < m2; i++ {
+			p.Conn2Ops = append(p.Conn2Ops, rapid.SampledFrom([]string{"conn:B2", "drop:B2", "drop:B2"}).Draw(t, "cop2"))
 		}
 		for i := 0; i < 4; i++ {
 			p.Jitter = append(p.Jitter, rapid.IntRange(0, 200).Draw(t, "jitter"))
@@ -527,7 +537,7 @@ func TestPropStress(t *testing.T) {
 		vs, overlaps := CheckStress(p)
 		key := ""
 		if overlaps > 0 {
-			key = fmt.Sprintf("p|%d|%v|%v|%v|%d|%v", p.Readers, p.WriterOps, p.ConnOps, p.Jitter, p.Requests, p.Pre)
+			key = fmt.Sprintf("p|%d|%v|%v|%v|%d|%v|%v", p.Readers, p.WriterOps, p.ConnOps, p.Jitter, p.Requests, p.Pre, p.Conn2Ops)
 		}
 		evid.Eval(key, "stress-plan")
 		evid.Count("requests-overlapping-a-writer-operation", int64(overlaps))
